@@ -162,6 +162,7 @@ func runRange(c *core.Ctx) []core.Obligation {
 		}
 	}
 	obs = append(obs, wrapFree(c)...)
+	obs = append(obs, sentinelBounds(c)...)
 	return obs
 }
 
